@@ -201,9 +201,9 @@ func c08sub(c *ctx) {
 		c.o.T("rc.new", "ok")
 		plans, label := c08plans(r, idx, c.thorough())
 		type event struct {
-			at   time.Time
-			pk   int
-			seq  int
+			at  time.Time
+			pk  int
+			seq int
 		}
 		var evs []event
 		pkts := make([]hsPacket, len(plans))
@@ -270,7 +270,7 @@ func c08sub(c *ctx) {
 					c.o.V("C08 replay-after-cleanup", map[string]any{"script": idx, "kind": label, "transport": pkts[e.pk].tr,
 						"history": history[e.pk], "first_packet": hx(pkts[e.pk].pkt), "server_private_key": hx(keys.priv[:]),
 						"bubble_start_ns": t0.UnixNano(),
-						"note": "the same first packet was accepted twice; its timestamp was still inside the window the second time"})
+						"note":            "the same first packet was accepted twice; its timestamp was still inside the window the second time"})
 				}
 			}
 		}
